@@ -5,6 +5,7 @@ from .drivers import history, funcs, twins, textfam, spellings
 def gen_history(m, rng, job):
     g = history.Gen(m, rng, history.PROFILES[job['profile']], maxlen=job.get('maxlen', 8),
                     odd=job.get('odd', 0.0), more=job.get('more', 0.3), anstr=job.get('anstr', 0.15), alpha=job.get('alpha'))
+    g.ctrl = job.get('ctrl', 0.0)
     return g.run(job.get('nops', 10), epilogue=job.get('epilogue', ())), {}
 
 
